@@ -6,6 +6,7 @@ import logging
 import threading
 from dataclasses import dataclass, field, fields, is_dataclass
 from functools import lru_cache
+import types
 import typing
 from typing import _GenericAlias
 
@@ -166,6 +167,15 @@ def _declared_collection_type(clazz: Type, field_name: str) -> Optional[Type]:
     except Exception:
         return None
     origin = typing.get_origin(declared_type) or declared_type
+    if origin in (typing.Union, types.UnionType):
+        # Optional[Set[X]]: a collection that may be missing
+        arguments = [
+            argument
+            for argument in typing.get_args(declared_type)
+            if argument is not type(None)
+        ]
+        if len(arguments) == 1:
+            origin = typing.get_origin(arguments[0]) or arguments[0]
     return origin if origin in (set, frozenset, tuple) else None
 
 
@@ -300,9 +310,12 @@ class FromDAOState:
                 fixed_list = []
                 for v in value:
                     fixed_list.append(self.memo.get(id(v)))
-                setattr(result, key, declared_collection(type(result), key, fixed_list))
+                # (object.__setattr__: also for frozen dataclasses)
+                object.__setattr__(
+                    result, key, declared_collection(type(result), key, fixed_list)
+                )
             else:
-                setattr(result, key, self.memo.get(id(value)))
+                object.__setattr__(result, key, self.memo.get(id(value)))
 
 
 class HasGeneric(Generic[T]):
